@@ -2206,6 +2206,18 @@ func genTrans(repo, outDir string) error {
 		sb.WriteString(d.text + "\n\n")
 		facts["TransC04.Interface_RouterAdvertisement"] = d.text
 	}
+	// config.parseInterface (translate_iface.go)
+	curTag = "TransC02"
+	if p, err := loadPkg(repo, "internal/config"); err != nil {
+		failf("translate: parseInterface: %v", err)
+	} else if d, err := translateParseInterface(p); err != nil {
+		failf("%s", err)
+		sb.WriteString("-- NOT TRANSLATED: " + docSafe(err.Error()) + "\n\n")
+		facts["TransC02.parseInterface"] = "NOT TRANSLATED: " + err.Error()
+	} else {
+		sb.WriteString(d.text + "\n\n")
+		facts["TransC02.parseInterface"] = d.text
+	}
 	// the error classification of (*Dialer).init (translate_switch.go)
 	curTag = "TransC10"
 	if p, err := loadPkg(repo, "internal/system"); err != nil {
